@@ -27,6 +27,17 @@ def _geo(c):
     o["w4"] = enc.arr(net.node_weights, 10**4)
     o["awc6"] = enc.arr(net.area_weighted_connectivity())
     o["maxld6"] = enc.arr(net.max_link_distance())
+    # the grid's distances as they are served after the network has been analysed
+    for q in (net.local_geographical_clustering, net.average_link_distance, net.total_link_distance,
+              net.inaverage_link_distance, net.outaverage_link_distance, net.connectivity_weighted_distance,
+              lambda: net.link_distance_distribution(4, "spherical"), lambda: net.average_link_distance(True),
+              lambda: net.total_link_distance(True), lambda: net.geographical_distribution(lat, 3),
+              lambda: g.geometric_distance_distribution(4), g.sin_lat, g.cos_lon, g.boundaries):
+        try:
+            q()
+        except Exception:
+            pass
+    o["ang2"] = enc.arr(g.angular_distance())
     return o
 
 
@@ -35,8 +46,22 @@ def _euc(c):
     pts = np.array(c["pts"], dtype=float)
     g = Grid(np.arange(3.0), pts.T.copy(), silence_level=3)
     D = g.euclidean_distance()
-    return {"exc": "", "d3": enc.arr(D, 1000), "sym": int(np.array_equal(D, D.T)),
-            "diag0": int(np.all(np.diag(D) == 0))}
+    o = {"exc": "", "d3": enc.arr(D, 1000), "sym": int(np.array_equal(D, D.T)),
+         "diag0": int(np.all(np.diag(D) == 0))}
+    from pyunicorn.core import SpatialNetwork
+    n = len(pts)
+    rng = np.random.RandomState(n)
+    A = np.triu((rng.rand(n, n) < 0.4).astype(int), 1)
+    net = SpatialNetwork(g, adjacency=A + A.T, silence_level=3)
+    for q in (net.average_link_distance, net.max_link_distance, net.outaverage_link_distance,
+              lambda: net.link_distance_distribution(3, "euclidean"), net.inaverage_link_distance,
+              lambda: g.geometric_distance_distribution(3) if hasattr(g, "geometric_distance_distribution") else None):
+        try:
+            q()
+        except Exception:
+            pass
+    o["d3b"] = enc.arr(g.euclidean_distance(), 1000)
+    return o
 
 
 def _rect(c):
